@@ -5,6 +5,7 @@ import (
 	"bytes"
 	"fmt"
 	"html"
+	"sort"
 	"strconv"
 	"strings"
 	"testing"
@@ -15,6 +16,7 @@ import (
 	"pgregory.net/rapid"
 
 	"verif/kit"
+	"verif/oracle"
 )
 
 func TestMain(m *testing.M) {
@@ -23,7 +25,7 @@ func TestMain(m *testing.M) {
 	kit.Register("label", labelOracle)
 	kit.Register("filter", filterOracle)
 	kit.Describe("law: case = (function, byte string) checked against the function's law (EscapeHTML: no raw < > \", every & starts &amp; &lt; &gt; &quot;, html.UnescapeString inverts it; URLEscape: no space/control/DEL/\"/</> byte, every % followed by two hex digits, existing %XX triples kept, ASCII-only for valid UTF-8 input, idempotent, URLEscape(URLEscape(x,true),false) stable; resolvers: valid UTF-8 stays valid); ref: references built by construction (decimal with leading zeros, hex, named, out-of-range) with the expected expansion known from the construction and Go's html package; label: ToLinkReference idempotent and invariant under whitespace-run respacing, trimming and unicode.SimpleFold orbit substitutions; filter: programs of NewBytesFilter/Add/Extend/ExtendString/Contains over keys that collide in one of the 64 buckets and share prefixes, compared with Go maps (set semantics, independence of parent and siblings). Exhaustive parts: all strings up to length 4 (quick) / 5 (thorough) over a 14-symbol alphabet for every law; all code points for the per-rune laws. non-trivial = the function is not the identity on the input / a filter program with >= 2 derived filters and a bucket collision; distinct by hash of the case",
-		"Unicode tables of the pinned toolchain (go1.23, Unicode 15.0)", "html.UnescapeString (Go standard library) as the independent HTML5 entity table")
+		"Unicode tables of the pinned toolchain (go1.23, Unicode 15.0)", "html.UnescapeString (Go standard library) and the WHATWG list of named references (as shipped with Python, oracle/entities_data.go) as two independent HTML5 entity tables; every one of the 2125 names is checked")
 	kit.Main(m, "C19")
 }
 
@@ -273,6 +275,14 @@ func refOracle(c *kit.Case) error {
 		want = html.UnescapeString(ref)
 		if want == html.UnescapeString("&"+body)+";" {
 			want = ref
+		}
+		// second, independent table (WHATWG list as shipped with Python): the two must agree on every name
+		// (Go's table lacks nGt; and nLt;, so for a name of the list the list decides; where both resolve they must agree)
+		if exp, ok := oracle.HTML5Entities[body]; ok {
+			if want != ref && want != exp {
+				return kit.Violf("oracle-tables-disagree", "&%s; is %q in Go's html package and %q in the WHATWG list", body, want, exp)
+			}
+			want = exp
 		}
 	default:
 		return nil
@@ -527,6 +537,28 @@ func TestReferences(t *testing.T) {
 			kit.R.NonTrivial(c)
 		}
 	})
+}
+
+// TestAllEntities: every named character reference of HTML5 (2125 names ending in ';') resolves to its expansion.
+func TestAllEntities(t *testing.T) {
+	names := make([]string, 0, len(oracle.HTML5Entities))
+	for n := range oracle.HTML5Entities {
+		names = append(names, n)
+	}
+	sort.Strings(names)
+	for i, n := range names {
+		if !kit.Mine(i) {
+			continue
+		}
+		for _, ctx := range [][2]string{{"", ""}, {"a", "b"}, {"+", ";"}} {
+			c := kit.NewCase("ref", "").B("pre", []byte(ctx[0])).B("suf", []byte(ctx[1])).S("kind", "name").S("body", n)
+			if kit.Check(t, c) {
+				kit.R.Class("ref:every-html5-name")
+				kit.R.NonTrivial(c)
+			}
+		}
+	}
+	kit.R.Note("exhaustive_entities", fmt.Sprintf("all %d HTML5 entity names x 3 contexts", len(names)))
 }
 
 var labelRunes = []rune("aAbBzZkKsSßẞσςΣǆǅǄéÉİıſ1-_*[ .")
